@@ -382,6 +382,185 @@ func setEm(p *para, em int) {
 	p.Em = em
 }
 
+// GLUED stream: inline boxes with non-zero horizontal margin/border/padding that hold several
+// short words and are followed WITHOUT a break opportunity by more content (text, another
+// inline box, text inside the parent box).  At widths where the box fits entirely and what
+// is glued to it does not, the line has to be broken INSIDE a box that had already been
+// placed (inline.go breakWaitingChildren: the finished children of the line are re-split,
+// last one first, at their last break opportunity; this is the only way to that code with
+// a box whose margin width differs from its content width).
+func shortWords(r *vlib.Rng, lo, hi int) string {
+	k := r.Range(lo, hi)
+	var ws []string
+	for i := 0; i < k; i++ {
+		ws = append(ws, word(r, vlib.Pick(r, []int{1, 1, 2, 2, 3})))
+	}
+	return strings.Join(ws, " ")
+}
+
+func bigEdges(r *vlib.Rng, em int, n *node) {
+	pick := func() int { return vlib.Pick(r, []int{0, 1, em / 2, em, em, 2 * em, 2 * em, 3 * em, r.Range(1, 3*em)}) }
+	for n.Edges[0]+n.Edges[1]+n.Edges[2]+n.Edges[3]+n.Edges[4]+n.Edges[5] == 0 {
+		// one of margin / border / padding on each side most of the time
+		if r.Chance(4, 5) {
+			n.Edges[r.Intn(3)] = pick()
+		}
+		if r.Chance(4, 5) {
+			n.Edges[3+r.Intn(3)] = pick()
+		}
+	}
+}
+
+// a box holding several words (and now and then a nested box or an inline-block), whose
+// last child is text that ends with a word
+func genGluedBox(r *vlib.Rng, em, depth int) *node {
+	n := &node{Kind: kSpan}
+	if depth == 0 || r.Chance(2, 3) {
+		bigEdges(r, em, n)
+	}
+	if r.Chance(1, 6) {
+		n.VPad = vlib.Pick(r, []int{1, 5, em})
+	}
+	switch k := r.Intn(10); {
+	case k < 6 || depth >= 2:
+		n.Kids = []*node{{Kind: kText, Text: shortWords(r, 2, 4)}}
+	case k < 8: // a nested box first or last, glued or not to the words of this one
+		in := genGluedBox(r, em, depth+1)
+		sp := vlib.Pick(r, []string{"", " "})
+		if r.Chance(1, 2) {
+			n.Kids = []*node{in, {Kind: kText, Text: sp + shortWords(r, 1, 3)}}
+		} else {
+			n.Kids = []*node{{Kind: kText, Text: shortWords(r, 1, 3) + sp}, in}
+		}
+	default: // an inline-block among the words
+		n.Kids = []*node{{Kind: kText, Text: shortWords(r, 1, 2) + vlib.Pick(r, []string{"", " "})}, genAtomic(r, em),
+			{Kind: kText, Text: vlib.Pick(r, []string{"", " "}) + shortWords(r, 1, 3)}}
+	}
+	return n
+}
+
+// what is glued to the end of a box: a word (and more words after it), a box holding a
+// word, or both
+func genGlueTail(r *vlib.Rng, em int) []*node {
+	w := word(r, vlib.Pick(r, []int{1, 2, 3, 5}))
+	switch r.Intn(6) {
+	case 0, 1:
+		return []*node{{Kind: kText, Text: w}}
+	case 2, 3:
+		return []*node{{Kind: kText, Text: w + " " + shortWords(r, 1, 2)}}
+	case 4:
+		s := &node{Kind: kSpan, Kids: []*node{{Kind: kText, Text: w}}}
+		if r.Chance(1, 2) {
+			bigEdges(r, em, s)
+		}
+		return []*node{s}
+	default:
+		s := &node{Kind: kSpan, Kids: []*node{{Kind: kText, Text: w}}}
+		return []*node{s, {Kind: kText, Text: word(r, 2) + " " + shortWords(r, 1, 2)}}
+	}
+}
+
+func genGlued(r *vlib.Rng) *para {
+	p := &para{Font: "Ahem"}
+	p.Em = vlib.Pick(r, []int{10, 10, 20, 5, 15})
+	p.LH = vlib.Pick(r, []int{p.Em, p.Em * 3 / 2, 2 * p.Em, p.Em + 3})
+	p.WS = vlib.Pick(r, []string{"normal", "normal", "normal", "pre-line"})
+	p.Align = vlib.Pick(r, []string{"left", "left", "left", "right", "center", "justify", "start", "end"})
+	if r.Chance(1, 6) {
+		p.Indent = vlib.Pick(r, []int{p.Em, 2 * p.Em, 7, -p.Em})
+	}
+	if r.Chance(1, 8) {
+		p.OW = vlib.Pick(r, []string{"anywhere", "break-word"})
+	}
+	chains := r.Range(1, 3)
+	for c := 0; c < chains; c++ {
+		if c > 0 || r.Chance(1, 2) {
+			// what precedes the chain on the line, separated from it by a space or glued to it
+			lead := shortWords(r, 1, 2)
+			if c > 0 {
+				lead = " " + lead
+			}
+			if r.Chance(3, 4) {
+				lead += " "
+			}
+			p.Kids = append(p.Kids, &node{Kind: kText, Text: lead})
+		}
+		box := genGluedBox(r, p.Em, 0)
+		tail := genGlueTail(r, p.Em)
+		if r.Chance(1, 4) {
+			// the glued pair inside an outer box: the waiting child is a grandchild of the line
+			outer := &node{Kind: kSpan, Kids: append([]*node{box}, tail...)}
+			if r.Chance(1, 2) {
+				bigEdges(r, p.Em, outer)
+			}
+			if r.Chance(1, 2) {
+				outer.Kids = append([]*node{{Kind: kText, Text: shortWords(r, 1, 2) + " "}}, outer.Kids...)
+			}
+			p.Kids = append(p.Kids, outer)
+		} else {
+			p.Kids = append(p.Kids, box)
+			p.Kids = append(p.Kids, tail...)
+		}
+	}
+	return p
+}
+
+// widths at which a box fits entirely and what is glued to it does not: for every end edge
+// directly followed (inline-box edges apart) by a word, the stretch from a line start
+// candidate (the paragraph start or the item after a space) to that edge, plus less than
+// the glued word
+func gluedWidths(r *vlib.Rng, items []item, em, indent int) []int {
+	pre := make([]int, len(items)+1)
+	for i, it := range items {
+		pre[i+1] = pre[i] + it.W
+	}
+	starts := []int{0}
+	for i, it := range items {
+		if it.Kind == 'S' && i+1 < len(items) {
+			starts = append(starts, i+1)
+		}
+	}
+	set := map[int]bool{}
+	for i, it := range items {
+		if it.Kind != 'C' {
+			continue
+		}
+		j := i + 1
+		for j < len(items) && (items[j].Kind == 'O' || items[j].Kind == 'C') {
+			j++
+		}
+		if j >= len(items) || items[j].Kind != 'W' {
+			continue
+		}
+		// the end edges that stick to the content of the box
+		e := i
+		for e+1 < len(items) && items[e+1].Kind == 'C' {
+			e++
+		}
+		gw := pre[j+1] - pre[e+1] // start edges of the glued box + the glued word
+		for _, s := range starts {
+			if s > i {
+				continue
+			}
+			base := pre[e+1] - pre[s]
+			if s == 0 {
+				base += indent
+			}
+			for _, d := range []int{0, 1, gw / 2, gw - 1} {
+				if d >= 0 && d < gw && base+d > 0 {
+					set[base+d] = true
+				}
+			}
+		}
+	}
+	var all []int
+	for w := range set {
+		all = append(all, w)
+	}
+	sort.Ints(all)
+	return all
+}
+
 // boundary / malformed stream
 func genBoundary(r *vlib.Rng) *para {
 	p := genPara(r)
@@ -1095,7 +1274,30 @@ func (rn *runner) runDoc(ps []*para, r *vlib.Rng, engine string, maxWidths int, 
 	var bs []block
 	var its [][]item
 	for i, p := range ps {
-		for _, w := range sweep(r, all[i], p.Em, p.Indent, per) {
+		ws := sweep(r, all[i], p.Em, p.Indent, per)
+		if kind == "glued" {
+			// three quarters of the widths from the targeted set, the rest from the general sweep
+			g := gluedWidths(r, all[i], p.Em, p.Indent)
+			for len(g) > per*3/4 {
+				k := r.Intn(len(g))
+				g = append(g[:k], g[k+1:]...)
+			}
+			seen := map[int]bool{}
+			for _, w := range g {
+				seen[w] = true
+			}
+			for _, w := range ws {
+				if len(g) >= per {
+					break
+				}
+				if !seen[w] {
+					g = append(g, w)
+				}
+			}
+			sort.Ints(g)
+			ws = g
+		}
+		for _, w := range ws {
 			bs = append(bs, block{p, w})
 			its = append(its, all[i])
 		}
@@ -1448,8 +1650,10 @@ func main() {
 			engine = "gotext"
 		}
 		switch k := r.Intn(20); {
-		case k < 13:
+		case k < 11:
 			rn.runDoc(genDoc(r, genPara), r, engine, 16, "para")
+		case k < 13:
+			rn.runDoc(genDoc(r, genGlued), r, engine, 16, "glued")
 		case k < 16:
 			rn.runDoc(genDoc(r, genBoundary), r, engine, 12, "boundary")
 		case k < 18:
